@@ -232,6 +232,24 @@ def run_case(case):
                     "the proofs of query %s are listed with head %s\n%s" % (q, wrong, "\n".join(explanation)))
             COUNTERS["explain_sums_checked"] += 1
     COUNTERS["mode:%s" % mode] += 1
+    if viols and cls != "clean":
+        # is the k-best machinery wrong, or the ground program it was given?  The default exact evaluator shares the grounding only:
+        # if it returns the same wrong numbers the defect is the engine's (recorded engine findings, keyed by input class)
+        try:
+            from problog import get_evaluatable
+            dres = {str(k).replace(" ", ""): v for k, v in get_evaluatable().create_from(PrologString(text)).evaluate().items()}
+            engine_wrong = sorted(q for q, pq in ref.items() if q in dres and abs(float(dres[q]) - pq) > 1e-9)
+        except Exception:  # noqa
+            engine_wrong = []
+        if engine_wrong:
+            COUNTERS["engine_ground_program_wrong"] += 1
+            keep = [v for v in viols if not any(("query %s:" % q) in v[1] or ("query %s " % q) in v[1] for q in engine_wrong)]
+            moved = len(viols) - len(keep)
+            if moved:
+                keep.append(["engine-ground-program-wrong|" + cls, "the default exact evaluator returns the same wrong value as k-best for %s "
+                             "(reference %s, default evaluator %s): the ground program is wrong, not the k-best evaluation\n--- mode=%s\n%s" % (
+                                 engine_wrong, [ref[q] for q in engine_wrong], [dres[q] for q in engine_wrong], mode, text)])
+            viols = keep
     if viols:
         return viol(viols[0][0], viols[0][1], feat=feats, sample=text, extra_viols=viols[1:])
     return ok(nontrivial=R.nchoices >= 2, key=text + mode, feat=feats, sample=text)
